@@ -456,3 +456,16 @@ Example trim_example :
   wf_rowsel (Sels [(false, 2); (true, 3); (false, 1); (true, 4)])
   /\ den (trim (Sels [(false, 2); (true, 3); (false, 1); (true, 4)])) = [true; true; false; false; false; true].
 Proof. split; [repeat constructor; cbn; discriminate|reflexivity]. Qed.
+
+(* ------------------------------------------------------------------ FromIterator<RowSelection> *)
+Lemma dens_flat_map_selectors l : dens (flat_map selectors_of l) = flat_map den l.
+Proof.
+  induction l as [|s l IH]; [reflexivity|]. cbn [flat_map]. rewrite dens_app, IH. f_equal.
+  destruct s as [x|m]; [reflexivity|apply mask_to_selectors_dens].
+Qed.
+
+Theorem den_concat l : den (concat_sel l) = flat_map den l.
+Proof.
+  unfold concat_sel. destruct (forallb is_mask l); cbn [den]; [reflexivity|].
+  now rewrite from_iter_dens, dens_flat_map_selectors.
+Qed.
